@@ -1,0 +1,264 @@
+//go:build verif
+
+package protocol
+
+// Verification instrumentation. Compiled only with `-tags verif`.
+//
+// When the environment variable RDPGW_VERIF_CTL names a unix socket the
+// process connects to it at start-up and
+//   - writes one JSON line per hook point reached (process-wide sequence
+//     number taken under the hook mutex, so the order of lines is the order
+//     in which the hook points were passed), and
+//   - reads JSON command lines that install, release and remove gates: a
+//     goroutine that reaches a gated hook point blocks there until released,
+//     which lets an external driver replay a chosen interleaving.
+//
+// Without the variable every hook is a cheap no-op.
+
+import (
+	"bufio"
+	"encoding/json"
+	"fmt"
+	"net"
+	"os"
+	"runtime"
+	"strings"
+	"sync"
+	"time"
+)
+
+type verifGate struct {
+	ch chan struct{}
+}
+
+var verifState struct {
+	mu    sync.Mutex
+	on    bool
+	seq   int64
+	w     *bufio.Writer
+	conn  net.Conn
+	gates map[string]*verifGate
+	tuns  []*Tunnel
+}
+
+type verifCmd struct {
+	Op   string `json:"op"`
+	Pt   string `json:"pt"`
+	Cid  string `json:"cid"`
+	Role string `json:"role"`
+	N    int    `json:"n"`
+}
+
+func init() {
+	addr := os.Getenv("RDPGW_VERIF_CTL")
+	if addr == "" {
+		return
+	}
+	conn, err := net.Dial("unix", addr)
+	if err != nil {
+		fmt.Fprintf(os.Stderr, "verif: cannot connect to %s: %s\n", addr, err)
+		os.Exit(97)
+	}
+	verifState.conn = conn
+	verifState.w = bufio.NewWriter(conn)
+	verifState.gates = make(map[string]*verifGate)
+	verifState.on = true
+	go verifCommands(conn)
+}
+
+func verifGateKey(pt, cid, role string) string {
+	return pt + "|" + cid + "|" + role
+}
+
+func verifCommands(conn net.Conn) {
+	sc := bufio.NewScanner(conn)
+	sc.Buffer(make([]byte, 1<<16), 1<<20)
+	for sc.Scan() {
+		var c verifCmd
+		if err := json.Unmarshal(sc.Bytes(), &c); err != nil {
+			continue
+		}
+		switch c.Op {
+		case "gate":
+			verifState.mu.Lock()
+			verifState.gates[verifGateKey(c.Pt, c.Cid, c.Role)] = &verifGate{ch: make(chan struct{}, 4096)}
+			verifState.mu.Unlock()
+			verifEmit(map[string]interface{}{"pt": "ctl.gate", "gpt": c.Pt, "cid": c.Cid, "role": c.Role})
+		case "release":
+			verifState.mu.Lock()
+			g := verifState.gates[verifGateKey(c.Pt, c.Cid, c.Role)]
+			verifState.mu.Unlock()
+			n := c.N
+			if n < 1 {
+				n = 1
+			}
+			if g != nil {
+				for i := 0; i < n; i++ {
+					g.ch <- struct{}{}
+				}
+			}
+		case "ungate":
+			verifState.mu.Lock()
+			k := verifGateKey(c.Pt, c.Cid, c.Role)
+			g := verifState.gates[k]
+			delete(verifState.gates, k)
+			verifState.mu.Unlock()
+			if g != nil {
+				close(g.ch)
+			}
+			verifEmit(map[string]interface{}{"pt": "ctl.ungate", "gpt": c.Pt, "cid": c.Cid, "role": c.Role})
+		case "goroutines":
+			buf := make([]byte, 1<<22)
+			n := runtime.Stack(buf, true)
+			cnt := map[string]int{}
+			for _, g := range strings.Split(string(buf[:n]), "\n\n") {
+				for _, fn := range []string{"protocol.forward", "protocol.(*Processor).Process", "protocol.(*Gateway).HandleGatewayProtocol", "kdcproxy.awaitReply", "kdcproxy.(*KerberosProxy).forward"} {
+					if strings.Contains(g, fn+"(") {
+						cnt[fn]++
+					}
+				}
+			}
+			verifEmit(map[string]interface{}{"pt": "ctl.goroutines", "n": runtime.NumGoroutine(), "by": cnt, "tag": c.Cid})
+		case "sync":
+			verifEmit(map[string]interface{}{"pt": "ctl.sync", "tag": c.Cid})
+		}
+	}
+	// the driver went away: do not keep goroutines blocked
+	verifState.mu.Lock()
+	for k, g := range verifState.gates {
+		close(g.ch)
+		delete(verifState.gates, k)
+	}
+	verifState.on = false
+	verifState.mu.Unlock()
+}
+
+// verifEmit writes one event; the caller must not hold verifState.mu.
+func verifEmit(ev map[string]interface{}) {
+	verifState.mu.Lock()
+	defer verifState.mu.Unlock()
+	verifEmitLocked(ev)
+}
+
+func verifEmitLocked(ev map[string]interface{}) {
+	if !verifState.on {
+		return
+	}
+	verifState.seq++
+	ev["seq"] = verifState.seq
+	b, err := json.Marshal(ev)
+	if err != nil {
+		b, _ = json.Marshal(map[string]interface{}{"seq": verifState.seq, "pt": "verif.error", "err": err.Error()})
+	}
+	verifState.w.Write(b)
+	verifState.w.WriteByte('\n')
+	verifState.w.Flush()
+}
+
+func verifRole() string {
+	pcs := make([]uintptr, 16)
+	n := runtime.Callers(3, pcs)
+	frames := runtime.CallersFrames(pcs[:n])
+	for {
+		f, more := frames.Next()
+		if strings.HasSuffix(f.Function, "protocol.forward") {
+			return "relay"
+		}
+		if strings.HasSuffix(f.Function, "(*Processor).Process") {
+			return "loop"
+		}
+		if !more {
+			break
+		}
+	}
+	return "handler"
+}
+
+func verifArg(a interface{}) interface{} {
+	switch v := a.(type) {
+	case nil:
+		return nil
+	case error:
+		return v.Error()
+	case string, bool, int, int64, uint16, uint32, float64:
+		return v
+	case []byte:
+		return len(v)
+	default:
+		return fmt.Sprintf("%T", a)
+	}
+}
+
+// verifHook records that the calling goroutine passed the named point and, if
+// a gate is installed for it, blocks until the driver releases the gate.
+func verifHook(point string, t *Tunnel, args ...interface{}) {
+	if !verifState.on {
+		return
+	}
+	role := verifRole()
+	ev := map[string]interface{}{"pt": point, "role": role}
+
+	verifState.mu.Lock()
+	if t == nil && len(args) > 0 {
+		// tr.read passes the transport and relay.c2b the backend connection
+		// instead of the tunnel
+		switch args[0].(type) {
+		case int, string, bool, error, nil:
+		default:
+			for _, k := range verifState.tuns {
+				if (k.transportIn != nil && interface{}(k.transportIn) == args[0]) ||
+					(k.rwc != nil && interface{}(k.rwc) == args[0]) {
+					t = k
+					break
+				}
+			}
+			args = args[1:]
+		}
+	}
+	cid := ""
+	if t != nil {
+		cid = t.RDGId
+		ev["cid"] = cid
+		ev["tun"] = fmt.Sprintf("%p", t)
+		known := false
+		for _, k := range verifState.tuns {
+			if k == t {
+				known = true
+				break
+			}
+		}
+		if !known {
+			verifState.tuns = append(verifState.tuns, t)
+			if len(verifState.tuns) > 4096 {
+				verifState.tuns = verifState.tuns[len(verifState.tuns)-2048:]
+			}
+		}
+	}
+	if len(args) > 0 {
+		a := make([]interface{}, len(args))
+		for i := range args {
+			a[i] = verifArg(args[i])
+		}
+		ev["a"] = a
+	}
+	var g *verifGate
+	for _, k := range []string{verifGateKey(point, cid, role), verifGateKey(point, cid, ""), verifGateKey(point, "*", role), verifGateKey(point, "*", "")} {
+		if x, ok := verifState.gates[k]; ok {
+			g = x
+			break
+		}
+	}
+	if g != nil {
+		ev["gated"] = true
+	}
+	verifEmitLocked(ev)
+	verifState.mu.Unlock()
+
+	if g != nil {
+		select {
+		case <-g.ch:
+		case <-time.After(20 * time.Second):
+			verifEmit(map[string]interface{}{"pt": "ctl.gate.timeout", "gpt": point, "cid": cid, "role": role})
+		}
+	}
+}
